@@ -8,6 +8,7 @@ import AnnetModel.Lemmas.Rpl
 import AnnetModel.Lemmas.RplAcl
 import AnnetModel.Lemmas.RplRefs
 import AnnetModel.Lemmas.RplRefsA
+import AnnetModel.Lemmas.RplRefsC
 import AnnetModel.Lemmas.RplNesting
 
 /-! OBLIGATIONS
@@ -31,6 +32,9 @@ Annet.Rpl.C14_acl_covered_tree
 Annet.Rpl.C14_refs_defined_huawei
 Annet.Rpl.C14_refs_defined_false_empty_list
 Annet.Rpl.C14_refs_defined_arista
+Annet.Rpl.C14_refs_defined_cumulus
+Annet.Rpl.C14_refs_defined_cumulus_text
+Annet.Rpl.C14_refs_defined_cumulus_false_empty_list
 Annet.Rpl.C14_parse_nesting
 Annet.Rpl.C14_block_stream_rows
 -/
@@ -363,6 +367,72 @@ example :
     (∀ r ∈ refsA (runPolicyA aristaRefsInput).1,
       r ∈ defsA ((runCommunityA aristaRefsInput).1 ++ (runPrefixA aristaRefsInput).1 ++
         (runAsPathA aristaRefsInput).1)) := by decide
+
+/-- Cumulus (`generate_cumulus_rpl`): whenever the three list sections complete, every reference made by the route-map
+rows — `match community|large-community-list|extcommunity N` (united names `A_OR_B` for `has_any`),
+`match ip|ipv6 address prefix-list N` (derived names `N_ge_le`), `match as-path N`, `set comm-list N delete` — is
+defined by them (`bgp community-list|large-community-list|extcommunity … N`, `ip|ipv6 prefix-list N`,
+`ip as-path access-list N`), under the same hypotheses as for Arista.  The route-map section may be partial. -/
+theorem C14_refs_defined_cumulus (inp : Input)
+    (ha : (cumAsPath inp).2 = none) (hc : (cumCommunities inp).2 = none) (hpl : (cumPrefixLists inp).2 = none)
+    (hty : TypeConsistent inp) (hne : NonEmptyLists inp) (hcn : Lemmas.CondsNamed inp) (hinj : Lemmas.MangleInj inp)
+    (r : RefKindC × Str) (h : r ∈ refsC (cumPolicyConfig inp).1) :
+    r ∈ defsC ((cumAsPath inp).1 ++ (cumCommunities inp).1 ++ (cumPrefixLists inp).1) :=
+  Lemmas.refs_defined_cumulus inp ha hc hpl hty hne hcn hinj r h
+
+/-- The same read off the one text the generator produces: if `generate_cumulus_rpl` completes, every reference any
+of its rows makes is defined by one of its rows. -/
+theorem C14_refs_defined_cumulus_text (inp : Input) (hrun : (runCumulus inp).2 = none)
+    (hty : TypeConsistent inp) (hne : NonEmptyLists inp) (hcn : Lemmas.CondsNamed inp) (hinj : Lemmas.MangleInj inp)
+    (r : RefKindC × Str) (h : r ∈ refsC (runCumulus inp).1) : r ∈ defsC (runCumulus inp).1 :=
+  Lemmas.refs_defined_cumulus_run inp hrun hty hne hcn hinj r h
+
+/-- F14g on Cumulus — without `NonEmptyLists` the statement is false: the community list `C1` has no members, the
+community section yields no `bgp community-list … C1` row, the run completes, and `match community C1` refers to it
+(replayed on the real code: corpus/C14/dangling-ref:cumulus:empty-list.json). -/
+theorem C14_refs_defined_cumulus_false_empty_list :
+    (runCumulus emptyListInput).2 = none ∧
+    refsC (runCumulus emptyListInput).1 = [(.communityList, s "C1")] ∧
+    defsC (runCumulus emptyListInput).1 = [] := by decide
+
+def cumulusRefsStmt : Stmt :=
+  { name := none, number := some (s "10"), result := .allow,
+    conds := [{ field := .community, op := .hasAny, val := .names [s "C1", s "C2"] },
+              { field := .ipPrefix, op := .custom, val := .pfx [s "P1"] none (some (s "24")) }],
+    acts := [{ field := .community, type := .custom,
+               val := .comm { replaced := none, added := [], removed := [s "C1"] } }] }
+def cumulusRefsInput : Input :=
+  { policies := [{ name := s "p", stmts := [cumulusRefsStmt] }], clists := [basicList, basicList2],
+    plists := [refsDemoPl], aspaths := [], rds := [] }
+
+/-- Non-vacuity (Cumulus): `has_any(C1, C2)` refers to `C1_OR_C2`, the prefix condition to the derived `P1_unset_24`,
+`community.remove(C1)` to `C1`; the run completes, the key lists are mangled injectively, every community-like
+condition names a list, no list is empty; the three references are defined by rows of the same text. -/
+example :
+    (runCumulus cumulusRefsInput).2 = none ∧
+    refsC (runCumulus cumulusRefsInput).1 =
+      [(.communityList, s "C1_OR_C2"), (.prefixList, s "P1_unset_24"), (.communityList, s "C1")] ∧
+    defsC (runCumulus cumulusRefsInput).1 =
+      [(.communityList, s "C1"), (.communityList, s "C1"), (.communityList, s "C1_OR_C2"),
+       (.communityList, s "C1_OR_C2"), (.communityList, s "C1_OR_C2"), (.prefixList, s "P1_unset_24")] ∧
+    (∀ ns ∈ Lemmas.keyLists cumulusRefsInput, ∀ ns' ∈ Lemmas.keyLists cumulusRefsInput,
+      mangle ns = mangle ns' → ns = ns') ∧
+    (∀ r ∈ refsC (runCumulus cumulusRefsInput).1, r ∈ defsC (runCumulus cumulusRefsInput).1) := by decide
+
+/-- … and that input meets every hypothesis of `C14_refs_defined_cumulus_text`. -/
+example : TypeConsistent cumulusRefsInput ∧ NonEmptyLists cumulusRefsInput ∧ Lemmas.CondsNamed cumulusRefsInput ∧
+    Lemmas.MangleInj cumulusRefsInput := by
+  refine ⟨?_, ?_, ?_, ?_⟩
+  · unfold TypeConsistent; decide
+  · unfold NonEmptyLists; decide
+  · intro p hp st hst c hc l hv
+    simp only [cumulusRefsInput, List.mem_singleton] at hp; subst hp
+    simp only [List.mem_singleton] at hst; subst hst
+    simp only [cumulusRefsStmt, List.mem_cons, List.not_mem_nil, or_false] at hc
+    rcases hc with rfl | rfl
+    · cases hv; simp
+    · cases hv
+  · unfold Lemmas.MangleInj; decide
 
 /-! ### "Every generated line parses back to the block structure it was generated in" -/
 
